@@ -141,6 +141,11 @@ def run_property(prop: str, tier: str = "quick", replay: Optional[str] = None, t
         if not c.verify:
             assumed_contracts.append("%s: %s" % (q, c.assumed_reason or "assumed contract"))
             continue
+        elsewhere = getattr(mod, "VERIFIED_ELSEWHERE", {}) or {}
+        if q in elsewhere:
+            # the contract names this property but its body is verified by another property's run (listed, not counted)
+            assumed_contracts.append("%s: not verified in this run - %s" % (q, elsewhere[q]))
+            continue
         try:
             res = eng.verify_function(q, c)
         except Exception as e:  # generator crash = engine limit, never a violation
